@@ -608,3 +608,41 @@ def hostile_script(seed, idx, fam="hostile"):
     st.append(sleep(25 * SEC))
     return script(f"{fam}/{idx}", seed * 53 + idx, socks, st, net={"latency_us": 1000},
                   info={"family": fam, "mode": mode, "innocent": B_ADDR, "backlog": backlog_from_source()})
+
+# ------------------------------------------------------------------ path-MTU family (C14)
+def mtu_script(seed, idx, fam="mtu"):
+    rng = random.Random(seed * 1000003 + idx * 31 + 17)
+    v6 = rng.random() < 0.25
+    link_a = rng.choice([1500, 1500, 1280 if v6 else 1000, 9000, 1492])
+    link_b = rng.choice([link_a, link_a, 1500, 600 if not v6 else 1300])
+    iphdr = 48 if v6 else 28
+    floor = (1280 if v6 else 576) - iphdr           # datagram (UDP payload) size of the protocol minimum
+    ceil_a = link_a - iphdr
+    kind = rng.choice(["blackhole", "blackhole", "emsgsize", "none"])
+    # true path limit for datagrams, between the protocol minimum and the link MTU
+    path = rng.choice([floor, floor + 1, floor + 57, (floor + ceil_a) // 2, ceil_a - 1, ceil_a, rng.randrange(floor, max(floor + 1, ceil_a + 1))])
+    path = max(floor, min(path, ceil_a))
+    net = {"latency_us": rng.choice([1000, 10000])}
+    st = connect_steps()
+    if kind == "blackhole":
+        st += [{"op": "net_set", "from": "A", "to": "B", "blackhole_above": path},
+               {"op": "net_set", "from": "B", "to": "A", "blackhole_above": path}]
+    elif kind == "emsgsize":
+        st += [{"op": "net_set", "from": "A", "to": "B", "emsgsize_above": path},
+               {"op": "net_set", "from": "B", "to": "A", "emsgsize_above": path}]
+    # loss of non-probe packets: first transmissions of a few ordinary-size data segments
+    for j in sorted(rng.sample(range(3, 120), rng.choice([0, 2, 6]))):
+        st.append(rule(**{"from": "A", "type": "data", "seq_idx": j, "nth": 1, "max_len": floor, "act": "drop"}))
+    n = rng.choice([3000, 60000, 400000])
+    st += [{"op": "read", "ep": "b"}, {"op": "read", "ep": "a"},
+           {"op": "write", "ep": "a", "n": n}, {"op": "write", "ep": "b", "n": rng.choice([0, 2000, 50000])},
+           {"op": "flush", "ep": "a"}, {"op": "flush", "ep": "b"},
+           {"op": "wait", "what": "write", "timeout_us": 300 * SEC}, {"op": "wait", "what": "flush", "timeout_us": 300 * SEC},
+           {"op": "shutdown", "ep": "a"}, {"op": "wait", "what": "read", "timeout_us": 60 * SEC},
+           {"op": "drop", "ep": "a"}, {"op": "drop", "ep": "b"}, sleep(15 * SEC)]
+    aa, ba = (A6_ADDR, B6_ADDR) if v6 else (A_ADDR, B_ADDR)
+    socks = [sock("A", aa, rand=[10, 100], link_mtu=link_a, probe_retx=rng.choice([0, 1, 1])),
+             sock("B", ba, rand=[20, 200], link_mtu=link_b)]
+    return script(f"{fam}/{idx}", seed * 59 + idx, socks, st, net=net,
+                  info={"family": fam, "class": "fair-lossy", "kind": kind, "path_payload": (path - 20) if kind != "none" else 0,
+                        "links": [link_a, link_b], "n": n, "v6": v6})
